@@ -80,7 +80,9 @@ func idList(ids []s2.CellID) string {
 	return b.String()
 }
 
-// tableTerm: (tbl trues falses default)
+// tableTerm: (table2 trues falses default).  The default (answer for a cell the implementation never asked
+// about) is false for both predicates: a model that asks a different question than the code then drops
+// the cell and the lists differ (with "true" the all-children-terminal shortcut can mask the difference).
 func tableTerm(m map[s2.CellID]bool, dflt bool) string {
 	var t, f []s2.CellID
 	for k, v := range m {
@@ -339,7 +341,7 @@ func observe(c *vkit.Collector, rng *vkit.Rng, tr *testRegion, rc s2.RegionCover
 		c.Violate("Region.nondeterministic", "a region predicate gave two answers for one cell", rep(nil))
 	}
 	fb := fallbackTerm(c, bound, rc, label)
-	ti, tc := tableTerm(w.I, true), tableTerm(w.C, false)
+	ti, tc := tableTerm(w.I, false), tableTerm(w.C, false)
 	o := optsTerm(rc)
 	c.Check("Covering+CellUnion+FastCovering "+label,
 		"(let ti := "+ti+" in let tc := "+tc+" in let b := "+idList(bound)+" in let fb := "+fb+" in let o := "+o+" in "+
@@ -354,7 +356,7 @@ func observe(c *vkit.Collector, rng *vkit.Rng, tr *testRegion, rc s2.RegionCover
 	icu := irc.InteriorCellUnion(wi)
 	c.Eval("interior "+label, len(icov) > 0)
 	c.Check("InteriorCovering+InteriorCellUnion "+label,
-		"(let ti := "+tableTerm(wi.I, true)+" in let tc := "+tableTerm(wi.C, false)+" in let b := "+idList(bound)+" in let fb := "+
+		"(let ti := "+tableTerm(wi.I, false)+" in let tc := "+tableTerm(wi.C, false)+" in let b := "+idList(bound)+" in let fb := "+
 			fallbackTerm(c, bound, irc, "interior "+label)+" in let o := "+optsTerm(irc)+" in "+
 			vkit.App("olist_eqb", "(InteriorCovering ti tc b fb o)", idList(icov))+" && "+
 			vkit.App("olist_eqb", "(InteriorCellUnion ti tc b fb o)", idList(icu))+")")
